@@ -265,7 +265,7 @@ theorem plumeExample_ascending : @StrictAscending ℚ (fieldScalar plumeToyTrans
 
 /-- a Cartesian world and a query at `(x, y)`, depth `d` -/
 def plumeCtx : Ctx ℚ := ⟨⟨false, .none, 0⟩, 1600, 293, false, 0, 1, 1, 10⟩
-def plumeQuery (x y d : ℚ) : Query ℚ := ⟨⟨0, 0, 0⟩, ⟨x, y, 0⟩, d, 10⟩
+def plumeQuery (x y d : ℚ) : Query ℚ := { pt := ⟨0, 0, 0⟩, nat := ⟨x, y, 0⟩, depth := d, gravityNorm := 10 }
 
 /-- between the cross-sections: at depth 15 the centre is (1,0), the radius 2; the point (2,0) is inside with `rel = 1/4` -/
 example : @PlumeFeature.covers ℚ (fieldScalar plumeToyTransc) plumeExample plumeCtx (plumeQuery 2 0 15) = .ok (some (1 / 4)) := by
